@@ -34,12 +34,12 @@ use crate::builders::{
   BusinessKnowledgeModelEvaluator, DecisionEvaluator, DecisionServiceEvaluator, InputDataContextEvaluator, InputDataEvaluator, ItemDefinitionContextEvaluator,
   ItemDefinitionEvaluator, ItemDefinitionTypeEvaluator,
 };
-use crate::errors::{err_read_lock_failed, err_write_lock_failed};
+use crate::errors::{err_cyclic_requirements, err_read_lock_failed, err_write_lock_failed};
 use dmntk_common::Result;
 use dmntk_feel::context::FeelContext;
 use dmntk_feel::values::Value;
 use dmntk_feel::{value_null, Name};
-use dmntk_model::model::Definitions;
+use dmntk_model::model::{Definitions, DmnElement};
 use std::collections::HashMap;
 use std::sync::{Arc, RwLock, RwLockReadGuard};
 
@@ -49,6 +49,53 @@ pub enum InvocableType {
   Decision(String),
   BusinessKnowledgeModel(String, Name),
   DecisionService(String),
+}
+
+/// Checks if the requirements between decisions, business knowledge models
+/// and decision services are not cyclic (the evaluation of a cycle would never end).
+fn check_requirements(definitions: &Definitions) -> Result<()> {
+  // requirements followed while building and evaluating, indexed by the identifier of the requiring element
+  let mut requirements: HashMap<String, Vec<String>> = HashMap::new();
+  for decision in definitions.decisions() {
+    if let Some(id) = decision.id() {
+      let required = requirements.entry(id.clone()).or_default();
+      required.extend(decision.information_requirements().iter().flat_map(|r| r.required_decision()).map(String::from));
+      required.extend(decision.knowledge_requirements().iter().flat_map(|r| r.required_knowledge()).map(String::from));
+    }
+  }
+  for business_knowledge_model in definitions.business_knowledge_models() {
+    if let Some(id) = business_knowledge_model.id() {
+      let required = requirements.entry(id.clone()).or_default();
+      required.extend(
+        business_knowledge_model
+          .knowledge_requirements()
+          .iter()
+          .flat_map(|r| r.required_knowledge())
+          .map(String::from),
+      );
+    }
+  }
+  for decision_service in definitions.decision_services() {
+    if let Some(id) = decision_service.id() {
+      let required = requirements.entry(id.clone()).or_default();
+      required.extend(decision_service.input_decisions().iter().map(String::from));
+      required.extend(decision_service.encapsulated_decisions().iter().map(String::from));
+      required.extend(decision_service.output_decisions().iter().map(String::from));
+    }
+  }
+  // a chain of requirements longer than the number of elements visits some element twice
+  fn check_chain(id: &str, requirements: &HashMap<String, Vec<String>>, length: usize) -> Result<()> {
+    if let Some(required) = requirements.get(id) {
+      if length > requirements.len() {
+        return Err(err_cyclic_requirements(id));
+      }
+      for required_id in required {
+        check_chain(required_id, requirements, length + 1)?;
+      }
+    }
+    Ok(())
+  }
+  requirements.keys().try_for_each(|id| check_chain(id, &requirements, 1))
 }
 
 ///
@@ -77,6 +124,7 @@ pub struct ModelEvaluator {
 impl ModelEvaluator {
   /// Creates an instance of [ModelEvaluator].
   pub fn new(definitions: &Definitions) -> Result<Arc<Self>> {
+    check_requirements(definitions)?;
     let model_evaluator = Arc::new(ModelEvaluator::default());
     model_evaluator
       .input_data_evaluator
